@@ -90,9 +90,10 @@ def rec_program(frame, kind, thread, bounded):
 
 
 def recursion_cases(quick=True):
-    frames = [("locals", 0), ("locals", 8), ("locals", 64), ("struct", 1), ("struct", 3), ("args", 12), ("temps", 8)]
+    # ("struct", 5) is a 256 KB frame: larger than the stack reserve below the limit, so the limit check itself has to hold
+    frames = [("locals", 0), ("locals", 8), ("locals", 64), ("struct", 1), ("struct", 3), ("struct", 5), ("args", 12), ("temps", 8)]
     if not quick:
-        frames += [("locals", 1), ("locals", 512), ("struct", 2), ("struct", 4), ("struct", 5), ("struct", 6), ("args", 30), ("temps", 40)]
+        frames += [("locals", 1), ("locals", 512), ("struct", 2), ("struct", 4), ("struct", 6), ("args", 30), ("temps", 40)]
     kinds = ["direct", "mutual", "lambda", "trait_obj", "generic"]
     threads = ["main", "spawned"] + ([] if quick else ["nested_spawned"])
     out = []
